@@ -17,7 +17,7 @@ func init() {
 		Rule:   "E1: for every year in the year set, NewSolar on month -1..14 x day -1..33 (+ hour/minute/second edge values on one valid and one invalid day per month) against R1 validity; NewLunar/NewLunarTime/NewTao/NewFoto on month -12..13 x day 0..31 against the image set of the civil sweep of the neighbouring civil years; E2: breadth-first search over chains of stepping/conversion calls from seed dates, de-duplicated on (type,y,m,d,h,mi,s), validity invariant on every produced object. non-trivial = argument tuples within one unit of a validity boundary, and BFS transitions that change the month",
 		Assume: []string{"R1 validity predicate", "lunar image set is taken from Solar.GetLunar over every civil day of years Y-1..Y+1 (that this map is a bijection is C01's job)"},
 		Shards: func(tier string, seed int64) []Shard {
-			sh := yearShardsWith(tier, seed, 9998, "box", []int{1901, 1969, 1970, 2001, 2038}) // years of the special time.Time values
+			sh := yearShardsWith(tier, seed, 9998, "box", []int{1901, 1969, 1970, 1990, 2001, 2010, 2011, 2022, 2038}) // years of the special time.Time values and of the named-zone sweep
 			sh = append(sh, Shard{Kind: "chains", Tier: tier, Seed: seed})
 			return sh
 		},
@@ -175,6 +175,55 @@ func c07Year(w *W, y int) {
 			w.R.Evals++
 			w.R.Nontrivial++
 		}
+	}
+	// ---- time.Time values in named zones whose clock changes happen at local midnight (the day then has no 00:00) or
+	// that skipped a civil day: every day of the year at 15:30 local; the ...FromDate constructors take the wall-clock
+	// fields as given
+	if y == 1990 || y == 2010 || y == 2011 || y == 2022 {
+		for _, zn := range []string{"America/Santiago", "America/Havana", "America/Sao_Paulo", "Atlantic/Azores", "America/Asuncion", "Pacific/Apia", "Asia/Beirut"} {
+			loc, err := time.LoadLocation(zn)
+			if err != nil {
+				continue
+			}
+			for j := r1JDN(y, 1, 1); j <= r1JDN(y, 12, 31); j++ {
+				cy, cm, cd := r1FromJDN(j)
+				t := time.Date(cy, time.Month(cm), cd, 15, 30, 0, 0, loc)
+				if t.Year() != cy || int(t.Month()) != cm || t.Day() != cd || t.Hour() != 15 {
+					continue // that wall-clock time does not exist in the zone
+				}
+				if msg, p := try(func() {
+					st := 0
+					wk := calendar.NewSolarWeekFromDate(t, st)
+					ref := calendar.NewSolarWeekFromYmd(cy, cm, cd, st)
+					so := calendar.NewSolarFromDate(t)
+					if wk.GetYear() != cy || wk.GetMonth() != cm || wk.GetDay() != cd || wk.GetFirstDay().ToYmd() != ref.GetFirstDay().ToYmd() || wk.GetIndex() != ref.GetIndex() ||
+						!solarEq(so, cy, cm, cd, 15, 30, 0) || calendar.NewSolarMonthFromDate(t).GetMonth() != cm || calendar.NewSolarYearFromDate(t).GetYear() != cy ||
+						calendar.NewSolarSeasonFromDate(t).GetMonth() != cm || calendar.NewSolarHalfYearFromDate(t).GetMonth() != cm || fieldDigest(calendar.NewLunarFromDate(t)) != fieldDigest(calendar.NewSolar(cy, cm, cd, 15, 30, 0).GetLunar()) {
+						w.Viol(fmt.Sprintf("C07:FromDate:zone:%s:%04d-%02d-%02d", zn, cy, cm, cd), fmt.Sprintf("a ...FromDate constructor does not take the wall-clock fields of %s (zone %s): week %d-%d-%d first day %s, civil %s", t.Format("2006-01-02 15:04:05 -07:00"), zn, wk.GetYear(), wk.GetMonth(), wk.GetDay(), wk.GetFirstDay().ToYmd(), so.ToYmdHms()), t.String())
+					}
+				}); p {
+					w.Viol("C07:FromDate:zone:panic:"+zn, msg, t.String())
+				}
+				w.R.Evals++
+			}
+		}
+	}
+	// ---- Julian Days in the last half second of a month / year: the instant rounds to 00:00:00 of the next civil day,
+	// which exists
+	for m := 1; m <= 12; m++ {
+		jEnd := r1JDN(y, m, r1LastDay(y, m))
+		ny, nm, nd := r1FromJDN(jEnd + 1)
+		if ny > 9998 {
+			continue
+		}
+		jd := float64(jEnd) + 0.5 - 0.3/86400
+		var s *calendar.Solar
+		if msg, p := try(func() { s = calendar.NewSolarFromJulianDay(jd) }); p {
+			w.Viol(fmt.Sprintf("C07:NewSolarFromJulianDay:carry:%04d-%02d", y, m), fmt.Sprintf("NewSolarFromJulianDay(%.9f) (0.3 s before the midnight that ends %04d-%02d) panics: %s", jd, y, m, msg), []int{y, m})
+		} else if !solarEq(s, ny, nm, nd, 0, 0, 0) {
+			w.Viol(fmt.Sprintf("C07:NewSolarFromJulianDay:carry:%04d-%02d", y, m), fmt.Sprintf("NewSolarFromJulianDay(%.9f) = %s, the instant rounds to %04d-%02d-%02d 00:00:00", jd, s.ToYmdHms(), ny, nm, nd), []int{y, m})
+		}
+		w.R.Evals++
 	}
 	// ---- lunar image set of lunar year y from the civil sweep
 	image := map[[2]int]int{} // (month) -> max day seen; plus set of (m,d)
